@@ -210,7 +210,7 @@ def materialise(world, top, schedule=None):
     if world.get("cbi_config") is not None:
         os.makedirs(os.path.join(root, ".cbi"), exist_ok=True)
         with open(os.path.join(root, ".cbi", "config"), "w") as f:
-            f.write(world["cbi_config"])
+            f.write(subst(world["cbi_config"], top))
     # analysis file (platform tables in scheduled order)
     adir = os.path.join(top, os.path.dirname(analysis_path(world)))
     os.makedirs(adir, exist_ok=True)
